@@ -34,7 +34,7 @@ def jobs(tier, seed):
     rng = random.Random(seed * 7919 + 8)
     alphabet = BOUNDS[tier]["alphabet"]
     out = []
-    n = 130 if tier == "quick" else 2000
+    n = 200 if tier == "quick" else 5000
     names = list(IFACES)
     for i in range(n):
         w = names[i % len(names)]
